@@ -421,9 +421,19 @@ def run_infnodes(h, cfg):
             stub.script_choice = script_choice
         res = h.call_must_succeed('no-exception', r.EoN.get_infected_nodes, r.G, r.tau, r.gamma, **kw)
         if cfg.get('default_ic') and res is not None:
-            # the start node: uniform choices over ALL nodes, repeated while the pick is initially recovered; the accepted pick starts it
-            picks = [e for e in eng.log[n0:] if e[0] == 'choice' and sorted(map(str, e[1])) == sorted(map(str, r.nodes))]
-            if not picks or any(e[1][e[2]] not in r.R0 for e in picks[:-1]) or picks[-1][1][picks[-1][2]] in r.R0:
+            # the start node: whatever the selection scheme (rejection over all nodes, one choice over the eligible ones, ...), the
+            # draws that select a NODE come first; the last of them is the start node and must not be initially recovered
+            picks = []
+            for e in eng.log[n0:]:
+                if e[0] == 'choice' and all(x in r.nodes for x in e[1]):
+                    picks.append(e)
+                elif e[0] == 'sample' and all(x in r.nodes for x in e[1]) and e[2] == 1:
+                    picks.append(('choice', e[1], e[3][0]))
+                elif e[0] in ('random', 'expo', 'binomial'):
+                    break
+            if not picks:
+                raise symx.Inconclusive('get_infected_nodes: the choice of the default start node could not be read from the draws')
+            if picks[-1][1][picks[-1][2]] in r.R0:
                 h.fail('default-start-node', {'picks': [str(e[1][e[2]]) for e in picks], 'recovered': [str(x) for x in r.R0]})
                 return None
             h.require('default-start-node', True)
